@@ -72,14 +72,15 @@ structure World (D : Type) where
 inductive CtxUpdate
   | none
   | setDatabase (db : String)
-  | setSchema (s : String)
+  | setSchema (s : String) (db : Option String := none)   -- USE SCHEMA [db.]s: a qualified name also makes `db` current
   | dropped (isDatabase : Bool) (ident : String)   -- DROP DATABASE / DROP SCHEMA of the current one resets the context
 deriving DecidableEq, Repr
 
 def CtxUpdate.apply (s : Session) : CtxUpdate → Session
   | .none => s
   | .setDatabase db => { s with database := some db, databaseSet := true }
-  | .setSchema sc => { s with schema := some sc, schemaSet := true }
+  | .setSchema sc Option.none => { s with schema := some sc, schemaSet := true }
+  | .setSchema sc (some db) => { s with database := some db, databaseSet := true, schema := some sc, schemaSet := true }
   | .dropped true ident => if s.database = some ident then { s with database := Option.none, schema := Option.none } else s
   | .dropped false ident => if s.schema = some ident then { s with schema := Option.none } else s
 
@@ -176,6 +177,12 @@ def executeOld {D Q} (eng : D → Q → Except DuckExc D) (w : World D) (s : Stm
     | .ok sess =>
       let r := execCalls (fun d q => if w.closed then .error .connection else eng d q) { w with sess := sess } s.calls
       fin r.1 r.2
+
+/-- `cursor.description` / `_describe_last_sql`: a throw-away cursor runs `DESCRIBE <last sql>` through `_execute` (NOT through
+    `execute`, so the closed-connection guard is DuckDB's own ConnectionException, translated by the same ladder); `c` is that
+    DESCRIBE call as the pre-checks see it.  Only the outcome matters: the throw-away cursor's fields and sqlstate die with it. -/
+def descriptionOutcome {D Q} (eng : D → Q → Except DuckExc D) (w : World D) (c : Call Q) : Outcome :=
+  (execCall (fun d q => if w.closed then .error .connection else eng d q) w c).2
 
 /-! ### what a cursor goes through -/
 
